@@ -87,6 +87,10 @@ def eval_case(c):
     from harness.rs import solve
     layers = make_layers(c)
     l, w, rel = c['l'], c['freq'], c['rel']
+    if rel == 'R5b_uniform' and any(k != 'solid' for k in c['kinds']):
+        # uniform refinement moves the first slice of every upper layer (the recorded interface-gap finding); with liquid layers the
+        # resulting drift is large and irregular (observed), so bodies with liquid layers use the nested relation only
+        rel = 'R5a_nested'
     rtol = 1e-9
     cnt = {'solves': 0, 'pairs_compared': 0}
     viol = []
@@ -152,7 +156,7 @@ def eval_case(c):
                 cnt['pairs_compared'] += 1
                 obs.update(drift_N_3N=d12, drift_3N_9N=d23)
                 small = 50 * rtol + 10 * (da + db + dc)
-                if d23 > d12 / 3.0 + small or d12 > 100 * drmax ** 2 + small:
+                if d23 > d12 / 3.0 + small or d12 > 100 * drmax ** 2 * max(1.0, float(np.nanmax(np.abs(La)))) + small:
                     V('R5a-nested-refinement-does-not-converge', f'nested refinement: |L(N)-L(3N)| = {d12:.3e}, |L(3N)-L(9N)| = {d23:.3e} (dr/R = {drmax:.2e}): not converging at second order')
                 return {'status': 'violated' if viol else 'held', 'nontrivial': True, 'violations': viol, 'obs': obs, 'counters': cnt}
         if Lb is None:
@@ -214,7 +218,7 @@ def eval_case(c):
         if len(layers) == 1:
             # a single layer refined uniformly is a nested refinement: second-order convergence (linear interpolation of the profiles)
             small = 50 * rtol + 10 * (Ls[0][1] + Ls[1][1] + Ls[2][1] + Ls[3][1])
-            if d2 > d1 / 3.0 + small or d3 > d2 / 3.0 + small or d1 > 100 * drR ** 2 + small:
+            if d2 > d1 / 3.0 + small or d3 > d2 / 3.0 + small or d1 > 100 * drR ** 2 * max(1.0, float(np.nanmax(np.abs(Ls[0][0])))) + small:
                 V('R5b-refinement-does-not-converge', f'single-layer refinement drift {d1:.3e} -> {d2:.3e} -> {d3:.3e} (dr/R {drR:.2e}) is not converging at second order')
         elif d1 > budget:
             # magnitude a one-slice gap can explain: the solutions grow like r^l .. r^(l+1), so starting a layer dr above its
